@@ -169,3 +169,183 @@ End Threads.
 
 Definition run_threads (fn res: Type) (compile: fn) (apply: fn -> res) (n: nat) (schedule: list nat) :=
   run fn res compile apply (init fn res n) schedule.
+
+(* ------------------------------------------------------------------------------------------------------------- *)
+(* several method slots: every thread runs a PROGRAM = a sequence of calls (e.g. the nested calls of one public  *)
+(* call, or several public calls) over a table of lazily compiled methods; steps of different threads and of     *)
+(* different slots interleave arbitrarily                                                                          *)
+(* ------------------------------------------------------------------------------------------------------------- *)
+Section MultiSlot.
+  Variable fn : Type.
+  Variable res : Type.
+  Variable compile : nat -> fn.       (* what compiling slot i yields *)
+  Variable apply : fn -> res.
+
+  Record thread := TH { prog : list nat; tpc : pc fn res; out : list (nat * res) }.
+
+  Fixpoint set_nth (l: list (slot fn)) (i: nat) (x: slot fn) : list (slot fn) :=
+    match l, i with
+    | [], _ => []
+    | _ :: r, 0 => x :: r
+    | y :: r, S j => y :: set_nth r j x
+    end.
+
+  Definition step_one (sl: list (slot fn)) (t: thread) : list (slot fn) * thread :=
+    match prog t with
+    | [] => (sl, t)
+    | s :: rest =>
+        let (cur', p') := step_thread fn res (compile s) apply (nth s sl (SStub fn)) (tpc t) in
+        let sl' := set_nth sl s cur' in
+        match p' with
+        | PDone _ _ r => (sl', TH rest (PRead fn res) (out t ++ [(s, r)]))
+        | _ => (sl', TH (prog t) p' (out t))
+        end
+    end.
+
+  Fixpoint upd_th (l: list thread) (i: nat) (t: thread) : list thread :=
+    match l, i with
+    | [], _ => []
+    | _ :: r, 0 => t :: r
+    | y :: r, S j => y :: upd_th r j t
+    end.
+
+  Definition msys := (list (slot fn) * list thread)%type.
+  Definition mstep (y: msys) (tid: nat) : msys :=
+    match nth_error (snd y) tid with
+    | None => y
+    | Some t => let (sl', t') := step_one (fst y) t in (sl', upd_th (snd y) tid t')
+    end.
+  Definition mrun (y: msys) (schedule: list nat) : msys := fold_left mstep schedule y.
+
+  Definition slots_ok (sl: list (slot fn)) : Prop :=
+    forall i, nth i sl (SStub fn) = SStub fn \/ nth i sl (SStub fn) = SCompiled fn (compile i).
+  Definition out_ok (t: thread) : Prop := Forall (fun sr => snd sr = apply (compile (fst sr))) (out t).
+  Definition th_ok (sl: list (slot fn)) (t: thread) : Prop :=
+    out_ok t /\ Forall (fun s => s < length sl) (prog t) /\
+    match prog t with
+    | [] => True
+    | s :: _ =>
+        match tpc t with
+        | PSet _ _ f => f = compile s
+        | PRedispatch _ _ => nth s sl (SStub fn) = SCompiled fn (compile s)
+        | PDone _ _ _ => False
+        | _ => True
+        end
+    end.
+  Definition minv (y: msys) : Prop := slots_ok (fst y) /\ Forall (th_ok (fst y)) (snd y).
+
+  Lemma nth_set_nth_same l i x : i < length l -> nth i (set_nth l i x) (SStub fn) = x.
+  Proof. revert i. induction l as [|y r IH]; intros i L; cbn in *; [lia|]. destruct i; cbn; auto. apply IH. lia. Qed.
+  Lemma nth_set_nth_other l i j x : i <> j -> nth j (set_nth l i x) (SStub fn) = nth j l (SStub fn).
+  Proof.
+    revert i j. induction l as [|y r IH]; intros i j N; cbn; [destruct i, j; reflexivity|].
+    destruct i, j; cbn; auto; try congruence.
+  Qed.
+  Lemma length_set_nth l i x : length (set_nth l i x) = length l.
+  Proof. revert i. induction l as [|y r IH]; intros i; cbn; auto. destruct i; cbn; auto. Qed.
+  Lemma set_nth_overflow l i x : length l <= i -> set_nth l i x = l.
+  Proof. revert i. induction l as [|y r IH]; intros i L; cbn in *; [reflexivity|]. destruct i; [lia|]. f_equal. apply IH. lia. Qed.
+
+  Lemma Forall_upd_th (P: thread -> Prop) l i t : Forall P l -> P t -> Forall P (upd_th l i t).
+  Proof.
+    revert i. induction l as [|x r IH]; intros i FA Pt; cbn; [constructor|].
+    inversion FA; subst. destruct i; constructor; auto.
+  Qed.
+
+  (* one step of one thread keeps: every slot is a stub or THE compiled function of that slot; the step only turns
+     a stub into that function (never back) *)
+  Lemma step_one_slots sl t sl' t' :
+    slots_ok sl -> th_ok sl t -> step_one sl t = (sl', t') ->
+    slots_ok sl' /\ length sl' = length sl /\
+    (forall i, nth i sl (SStub fn) = SCompiled fn (compile i) -> nth i sl' (SStub fn) = SCompiled fn (compile i)) /\
+    th_ok sl' t'.
+  Proof.
+    intros SO (OK & RG & PC) S. unfold step_one in S. destruct (prog t) as [|s rest] eqn:PR.
+    - inversion S; subst. split; [exact SO|]. split; [reflexivity|]. split; [auto|]. unfold th_ok. rewrite PR. auto.
+    - inversion RG as [|? ? Ls RG']; subst.
+      destruct (step_thread fn res (compile s) apply (nth s sl (SStub fn)) (tpc t)) as [cur' p'] eqn:ST.
+      assert (CUR: cur' = nth s sl (SStub fn) \/ cur' = SCompiled fn (compile s)).
+      { destruct (tpc t); cbn in ST.
+        - destruct (nth s sl (SStub fn)); inversion ST; auto.
+        - inversion ST; auto.
+        - right. inversion ST. now rewrite PC.
+        - destruct (nth s sl (SStub fn)); inversion ST; auto.
+        - inversion ST; auto. }
+      assert (SO': slots_ok (set_nth sl s cur')).
+      { intros i. destruct (Nat.eq_dec s i) as [<-|N].
+        - rewrite nth_set_nth_same by exact Ls. destruct CUR as [->| ->]; [apply SO|now right].
+        - rewrite nth_set_nth_other by exact N. apply SO. }
+      assert (KEEP: forall i, nth i sl (SStub fn) = SCompiled fn (compile i) ->
+                              nth i (set_nth sl s cur') (SStub fn) = SCompiled fn (compile i)).
+      { intros i H. destruct (Nat.eq_dec s i) as [<-|N].
+        - rewrite nth_set_nth_same by exact Ls. destruct CUR as [->| ->]; auto.
+        - now rewrite nth_set_nth_other by exact N. }
+      assert (RES: forall r, p' = PDone fn res r -> r = apply (compile s)).
+      { intros r ->. destruct (tpc t); cbn in ST.
+        - destruct (nth s sl (SStub fn)) eqn:E; inversion ST; subst.
+          destruct (SO s) as [H|H]; rewrite E in H; [discriminate|]. inversion H. reflexivity.
+        - inversion ST.
+        - inversion ST.
+        - rewrite PC in ST. inversion ST. reflexivity.
+        - exfalso. exact PC. }
+      assert (RG2: Forall (fun s0 => s0 < length (set_nth sl s cur')) rest) by (rewrite length_set_nth; exact RG').
+      destruct p' as [| |f| |r]; inversion S; subst; (split; [exact SO'|]; split; [apply length_set_nth|]; split; [exact KEEP|]).
+      + unfold th_ok; cbn. split; [exact OK|]. split; [rewrite length_set_nth; exact RG|exact I].
+      + unfold th_ok; cbn. split; [exact OK|]. split; [rewrite length_set_nth; exact RG|exact I].
+      + unfold th_ok; cbn. split; [exact OK|]. split; [rewrite length_set_nth; exact RG|].
+        destruct (tpc t); cbn in ST; try (destruct (nth s sl (SStub fn)); inversion ST); inversion ST; reflexivity.
+      + unfold th_ok; cbn. split; [exact OK|]. split; [rewrite length_set_nth; exact RG|].
+        destruct (tpc t); cbn in ST; try (destruct (nth s sl (SStub fn)); inversion ST; fail); inversion ST.
+        rewrite nth_set_nth_same by exact Ls. now rewrite PC.
+      + unfold th_ok; cbn. split.
+        * unfold out_ok; cbn. apply Forall_app. split; [exact OK|]. constructor; [cbn; now apply RES|constructor].
+        * split; [exact RG2|]. destruct rest; exact I.
+  Qed.
+
+  Lemma th_ok_keep sl sl' t :
+    length sl' = length sl ->
+    (forall i, nth i sl (SStub fn) = SCompiled fn (compile i) -> nth i sl' (SStub fn) = SCompiled fn (compile i)) ->
+    th_ok sl t -> th_ok sl' t.
+  Proof.
+    intros L K (OK & RG & PC). split; [exact OK|]. split; [rewrite L; exact RG|].
+    destruct (prog t) as [|s r]; [exact I|]. destruct (tpc t); auto.
+  Qed.
+
+  Lemma mstep_inv y tid : minv y -> minv (mstep y tid).
+  Proof.
+    intros [SO FA]. unfold mstep. destruct (nth_error (snd y) tid) as [t|] eqn:N; [|now split].
+    assert (Pt: th_ok (fst y) t) by (rewrite Forall_forall in FA; apply FA; eapply nth_error_In; eauto).
+    destruct (step_one (fst y) t) as [sl' t'] eqn:S.
+    destruct (step_one_slots _ _ _ _ SO Pt S) as (SO' & L & K & Pt'). split; [exact SO'|]. cbn.
+    apply Forall_upd_th; [|exact Pt']. rewrite Forall_forall in *. intros u Hu. eapply th_ok_keep; eauto.
+  Qed.
+
+  Lemma mrun_inv schedule : forall y, minv y -> minv (mrun y schedule).
+  Proof. induction schedule as [|a r IH]; intros y I; cbn; [exact I|]. apply IH, mstep_inv, I. Qed.
+
+  Definition minit (nslots: nat) (progs: list (list nat)) : msys :=
+    (repeat (SStub fn) nslots, map (fun p => TH p (PRead fn res) []) progs).
+
+  Lemma minit_inv nslots progs :
+    Forall (Forall (fun s => s < nslots)) progs -> minv (minit nslots progs).
+  Proof.
+    intros RG. split.
+    - intros i. left. cbn. destruct (Nat.lt_ge_cases i nslots) as [L|L].
+      + apply nth_repeat.
+      + apply nth_overflow. now rewrite repeat_length.
+    - cbn. rewrite Forall_forall. intros t Ht. apply in_map_iff in Ht as (p & <- & Hp).
+      rewrite Forall_forall in RG. split; [constructor|]. split; [cbn; rewrite repeat_length; now apply RG|].
+      cbn. destruct p; exact I.
+  Qed.
+
+  (* SAFETY for any number of slots, threads, programs and any interleaving: every result a thread has obtained
+     from slot s is what the eagerly compiled method of s returns *)
+  Theorem multi_slot_safe nslots progs schedule t s r :
+    Forall (Forall (fun s => s < nslots)) progs ->
+    In t (snd (mrun (minit nslots progs) schedule)) -> In (s, r) (out t) -> r = apply (compile s).
+  Proof.
+    intros RG Ht Hr. destruct (mrun_inv schedule _ (minit_inv _ _ RG)) as [_ FA].
+    rewrite Forall_forall in FA. destruct (FA t Ht) as (OK & _). unfold out_ok in OK.
+    rewrite Forall_forall in OK. exact (OK (s, r) Hr).
+  Qed.
+End MultiSlot.
